@@ -154,7 +154,10 @@ def body_array(case):
     th = case['threshold']
     kw = {}
     if th != 0:
-        kw['threshold'] = th
+        # (a third of the cases: the threshold as a NumPy scalar, e.g. an entry of an array of tolerances)
+        kw['threshold'] = np.float64(th) if ts['seed'] % 3 == 0 else th
+    elif ts['seed'] % 3 == 0:
+        kw['threshold'] = np.float64(0.0)          # "no cut" written out, as a NumPy scalar
     if case['cap'] is not None:
         kw['max_rank'] = cap
     t = TT(x.copy(), **kw)
@@ -217,7 +220,10 @@ def cores_case(draw):
         cap = [None] + [draw(st.sampled_from([None, 1, 1, 2, 2, 3])) for _ in range(d - 1)] + [None]
         cap[0] = 1
         cap[-1] = 1
-    entry = draw(st.sampled_from(['ctor', 'ortho', 'left_then_right', 'right_then_left', 'left_only', 'right_only']))
+    # (the last three: the object has a history when the truncating call arrives -- a partial sweep, or a full one after which the
+    # caller changed a core array in place)
+    entry = draw(st.sampled_from(['ctor', 'ortho', 'left_then_right', 'right_then_left', 'left_only', 'right_only',
+                                  'partial_left_then_ortho', 'partial_right_then_ortho', 'sweep_inplace_change_then_ortho']))
     return {'a': a, 'cap': cap, 'entry': entry, 'aliased': draw(st.sampled_from([False, False, False, True])),
             'cap_numpy_int': draw(st.sampled_from([False, False, True]))}
 
@@ -265,13 +271,29 @@ def body_cores(case):
         elif entry == 'right_then_left':
             t.ortho_right()
             r = t.ortho_left(max_rank=cap)
+        elif entry == 'partial_left_then_ortho':
+            t.ortho_left(start_index=min(1 + spec['seed'] % 2, d - 2))
+            r = t.ortho(max_rank=cap)
+        elif entry == 'partial_right_then_ortho':
+            t.ortho_right(end_index=min(2 + spec['seed'] % 2, d - 1))
+            r = t.ortho(max_rank=cap)
+        elif entry == 'sweep_inplace_change_then_ortho':
+            (t.ortho_left if spec['seed'] % 2 else t.ortho_right)()
+            k = (spec['seed'] // 2) % d
+            if not spec.get('int_dtype'):
+                # a generic change of core k, written into the array the train holds; the tensor that is then truncated is the new one
+                rng = np.random.default_rng(spec['seed'] + 5)
+                t.cores[k] *= (1.0 + rng.uniform(0.5, 2.0, t.cores[k].shape))
+                x = dense.contract(t.cores)
+                nx = float(np.linalg.norm(x))
+            r = t.ortho(max_rank=cap)
         elif entry == 'left_only':
             r = t.ortho_left(max_rank=cap)
         else:
             r = t.ortho_right(max_rank=cap)
         require(r is t, 'returns_self', 'sweep did not return self')
     require_consistent(t, 'consistent')
-    if isinstance(cap, list):
+    if isinstance(cap, list) and entry not in ('partial_left_then_ortho', 'partial_right_then_ortho', 'sweep_inplace_change_then_ortho'):
         # the same list of caps once more on a fresh copy: a call that writes into its max_rank argument shows up here
         if entry == 'ctor':
             t2 = TT(fresh(cores), max_rank=cap)
@@ -312,7 +334,11 @@ def body_cores(case):
         bound = tail_bound(spectra, caps)
         if bound > 1e-6 * nx:
             target(err / bound, 'error / quasi-optimality bound')
-        require(err <= bound + SLACK * max(nx, 1e-300), 'quasi_optimal',
+        # rounding: relative to the tensor, and -- the input being cores -- at the level of machine precision relative to the
+        # representation (integer cores can cancel exactly: x = 0 or tiny although every core is O(1); the sweeps are backward
+        # stable in the cores, not in the contracted value). For generic cores the second term is far below the first.
+        rep = float(np.prod([np.linalg.norm(np.asarray(c_, dtype=complex)) for c_ in cores]))
+        require(err <= bound + SLACK * max(nx, 1e-300) + 64 * np.finfo(float).eps * rep, 'quasi_optimal',
                 '%s: error %.3e exceeds the bound %.3e (ranks %s -> %s, cap %s)' % (entry, err, bound, spec['ranks'], t.ranks, case['cap']))
     return lab
 
